@@ -217,6 +217,14 @@ func analyse(a pvpeg.Answer) facts {
 	return f
 }
 
+// invalidEscapes: tokens the documented syntax gives no meaning (code points beyond U+10FFFF, surrogates, malformed hex /
+// octal / unknown escapes), in the three literal quotings and in classes
+var invalidEscapes = []string{
+	`"\U80000000"`, `"\UFFFFFFFF"`, `'\U90000000'`, `"\U00110000"`, `"\U7FFFFFFF"`, `[\U80000000]`, `[a-\UFFFFFFFF]`, `"\UA0000041"i`,
+	`"\uD800"`, `"\uDFFF"`, `'\uDABC'`, `[\uD800]`, `"\U0000D800"`, `"\U0000DFFF"`,
+	`"\xZZ"`, `"\x4"`, `'\u12G4'`, `"\U0001F60"`, `"\8"`, `"\9a"`, `'\q'`, `"\-"`, `[\q]`, `"\18"`,
+}
+
 // stressText: see the class "opt-stress" in evaluate.
 func stressText(r interface{ Intn(int) int }) string {
 	term := func() string {
@@ -265,7 +273,16 @@ func evaluate(srv *pvpeg.Server, pigeon, dir string, seed int64, i int, av pvpeg
 		return pvpeg.Print(g, r, st)
 	}
 	forceOpt := false
-	switch x := r.Intn(106); {
+	mustReject := "" // set when the text is invalid BY CONSTRUCTION (independently of what the front-end under test says)
+	switch x := r.Intn(110); {
+	case x >= 106:
+		// a valid grammar plus one more rule whose body is a token with an INVALID escape: the documented syntax has no
+		// reading for it, the tool must reject the text whatever its own validation routines say (round 17: `\U80000000`
+		// passed a rewritten range check through a sign overflow, the literal silently became "")
+		it.class = "invalid-escape"
+		tok := invalidEscapes[r.Intn(len(invalidEscapes))]
+		it.text = strings.TrimRight(valid(true), " \t\n;") + "\nZq9 <- " + tok + "\n"
+		mustReject = tok
 	case x >= 100:
 		// what ast.Optimize rewrites, densely: adjacent literals with and without the i suffix, one-rune literals and classes
 		// in choices, parenthesised groups, small rules referenced from others - always with -optimize-grammar (a selftest
@@ -512,6 +529,9 @@ func evaluate(srv *pvpeg.Server, pigeon, dir string, seed int64, i int, av pvpeg
 	}
 	if code == 0 && ans.Kind == "err" {
 		fail("accepted-invalid", "exit 0 but the front-end says: "+ans.Msg)
+	}
+	if code == 0 && mustReject != "" {
+		fail("accepted-invalid", "exit 0 although the last rule's body is the token "+mustReject+", whose escape sequence denotes no code point / no byte")
 	}
 	if code == 3 && ans.Kind == "ok" {
 		fail("rejected-valid", "exit 3 although the front-end accepts the text; stderr: "+head)
